@@ -72,6 +72,9 @@ pub enum Op {
     Withdraw { lp: u128 },
     /// flash loan on vault 0 taken by the borrower contract (direct) or by the user through the router
     Loan { router: bool, amount: u128, program: Vec<Action> },
+    /// flash loan through the router with coins attached to the router's FlashLoan message itself: `attach`
+    /// of the vault asset (native vault) and/or `junk` of a foreign denom; the payload pays `pay` into the router
+    RouterLoanCoins { amount: u128, pay: u128, attach: u128, junk: u128 },
     Collect,
     SetFees { fees: [String; 3] },
     /// the operator re-points the vault's fee collector address
@@ -654,6 +657,17 @@ impl Scenario for VaultScen {
             }
             1 if rng.chance(1, 8) => Op::WithdrawDirect { junk: rng.chance(1, 2), amount: *rng.pick(&[1u128, 1000, 1001, 999_999, 2, 998, 1_000_000]) },
             1 => Op::Withdraw { lp: if ulp == 0 { rng.range128(0, 5) } else { match rng.below(4) { 0 => ulp, 1 => 1, _ => rng.edge_amount(ulp) } } },
+            2 if rng.chance(1, 8) => {
+                // a loan through the router with coins attached to the router's own FlashLoan message: they are
+                // the initiator's and must come back with the proceeds; the vault is paid the quote only
+                let amount = rng.edge_amount(o.bal.max(1)).max(1);
+                let f = self.fee_of3(amount);
+                let fees = f[0].saturating_add(f[1]).saturating_add(f[2]);
+                let pay = fees.saturating_add(*rng.pick(&[0u128, 0, 1, 1000]));
+                let attach = if self.cfg.kind == Kind::Native { (*rng.pick(&[1u128, 100, fees.max(1), amount / 2 + 1])).min(ubal) } else { 0 };
+                let junk = if self.cfg.kind != Kind::Native || rng.chance(1, 4) { 7 } else { 0 };
+                Op::RouterLoanCoins { amount, pay, attach, junk }
+            }
             2 => {
                 let avail = o.bal;
                 let amount = match rng.below(8) { 0 => avail, 1 => avail.saturating_add(1), 2 => 1, _ => rng.edge_amount(avail.max(1)) }.max(1);
@@ -968,7 +982,16 @@ pub fn apply(s: &mut VaultScen, step: &Step, ctx: &mut Ctx) {
             ctx.trace(&format!("donate:{}:{}", r.outcome.kind(), after.bal));
             global_invariants(s, ctx, &before, &after, r.outcome.is_ok(), "donate", None);
         }
-        Op::Loan { router, amount, program } => do_loan(s, ctx, actor, *router, *amount, program, step.fault, &before),
+        Op::Loan { router, amount, program } => do_loan(s, ctx, actor, *router, *amount, program, step.fault, &before, &[]),
+        Op::RouterLoanCoins { amount, pay, attach, junk } => {
+            ctx.probe("router_loan_with_coins_attached");
+            let program = vec![Action::Pay { to: s.router.clone(), asset: s.asset.clone(), amount: Uint128::new(*pay) }];
+            let mut funds = vec![];
+            if *junk > 0 { funds.push(cosmwasm_std::coin(*junk, "ujunk")); }
+            if *attach > 0 { if let AssetInfo::NativeToken { denom } = &s.asset { funds.push(cosmwasm_std::coin(*attach, denom)); } }
+            funds.sort_by(|a, b| a.denom.cmp(&b.denom));
+            do_loan(s, ctx, actor, true, *amount, &program, step.fault, &before, &funds)
+        }
     }
 }
 
@@ -1081,7 +1104,8 @@ fn do_withdraw(s: &mut VaultScen, ctx: &mut Ctx, actor: usize, lp: u128, fault: 
 }
 
 #[allow(clippy::too_many_arguments)]
-fn do_loan(s: &mut VaultScen, ctx: &mut Ctx, actor: usize, router: bool, amount: u128, program: &[Action], fault: Fault, before: &Obs) {
+#[allow(clippy::too_many_arguments)]
+fn do_loan(s: &mut VaultScen, ctx: &mut Ctx, actor: usize, router: bool, amount: u128, program: &[Action], fault: Fault, before: &Obs, router_funds: &[cosmwasm_std::Coin]) {
     let who = s.user(actor);
     // quote
     let quote: Result<vault::PaybackAmountResponse, String> = query(&s.app, &s.vault, &vault::QueryMsg::GetPaybackAmount { amount: Uint128::new(amount) });
@@ -1097,7 +1121,7 @@ fn do_loan(s: &mut VaultScen, ctx: &mut Ctx, actor: usize, router: bool, amount:
     let initiator_before = balance(&s.app, who, &s.asset);
     let msg = if router {
         let msgs: Vec<CosmosMsg> = program.iter().map(|p| wasm_exec(&s.borrower, &vh::ExecuteMsg::Run { program: vec![p.clone()] }, vec![])).collect();
-        wasm_exec(&s.router, &vault_router::ExecuteMsg::FlashLoan { assets: vec![Asset { info: s.asset.clone(), amount: Uint128::new(amount) }], msgs }, vec![])
+        wasm_exec(&s.router, &vault_router::ExecuteMsg::FlashLoan { assets: vec![Asset { info: s.asset.clone(), amount: Uint128::new(amount) }], msgs }, router_funds.to_vec())
     } else {
         wasm_exec(&s.borrower, &vh::ExecuteMsg::Run { program: program.to_vec() }, vec![])
     };
